@@ -253,7 +253,9 @@ PLANS["C15"] = {
     "level": "model_checking",
     "assumptions": L1_ASSUME,
     "stages": [
-        T("general3", "general", (40, 1000), ["InvBackendsAgree", "InvOutcome", "InvValue"], backends="bolt,badger,badgermem", chunk=8),
+        T("general3", "general", (40, 1000), ["InvBackendsAgree", "InvAuditAgree", "InvOutcome", "InvValue"], backends="bolt,badger,badgermem", chunk=8),
+        T("audit3", "audit", (20, 500), ["InvBackendsAgree", "InvAuditAgree"], backends="bolt,badger,badgermem", chunk=8),
+        T("bulk3", "bulk", (12, 120), ["InvBackendsAgree", "InvAuditAgree"], backends="bolt,badger", chunk=3, heap="6g"),
         T("sort3", "sort", (20, 500), ["InvBackendsAgree", "InvValue"], backends="bolt,badger,badgermem", chunk=8),
     ],
 }
@@ -368,12 +370,12 @@ PLANS["C07"] = {
            tier="thorough", expect_violation="Linearizable"),
         # binding of the model to the code: the keys each operation really reads / writes (advisory drift)
         AUX("rwset", "rwset", (1, 1), module="TraceRW", invariants=["InvRW"], advisory=True, chunk=200),
-        {"kind": "lin", "name": "lin", "n": (120, 3000), "maxg": 4, "ops": 3, "chunk": 10},
+        {"kind": "lin", "name": "lin", "n": (90, 3000), "maxg": 4, "ops": 3, "chunk": 10},
         {"kind": "lin", "name": "lin-wide", "n": (30, 1000), "maxg": 8, "ops": 3, "chunk": 5, "seed_off": 31},
         # deterministic schedules on the optimistic store: a bulk update held open (gate in its first callback)
         # while a point update and then a reader run to completion
         {"kind": "lin", "name": "lin-gated", "n": (12, 60), "gated": True, "backends": "badger,badgermem", "chunk": 12, "seed_off": 63},
-        {"kind": "race", "name": "race", "n": (40, 600), "maxg": 6},
+        {"kind": "race", "name": "race", "n": (24, 600), "maxg": 6},
     ],
 }
 
